@@ -63,7 +63,18 @@ def i1_invariant(sim, vp, op, path):
     }
 
 
+LOCALES = ["ascii", "latin-1", "euc_jp", "cp1252"]
+
+
 def gen_command(rng, dflt, keys, merge_files):
+    cmd = _gen_command(rng, dflt, keys, merge_files)
+    if rng.random() < 0.15:
+        # cron, ssh, a container: the same home under another locale
+        cmd["locale"] = rng.choice(LOCALES)
+    return cmd
+
+
+def _gen_command(rng, dflt, keys, merge_files):
     cmd = _gen_command(rng, dflt, keys, merge_files)
     if cmd["cmd"] == "config" and cmd["argv"][0] == "set" and (
             rng.random() < 0.12):
@@ -370,7 +381,13 @@ class C19(Check):
             epoch_info.append([[r["ok"] for r in vp.results] for vp in vps])
         # I2: the process that starts afterwards
         if violation is None and sim.harness_error is None:
-            vps = sim.run([[{"cmd": "start"}]], ())
+            # "any evo process that starts afterwards": also one with
+            # another locale encoding (a pure function of the case)
+            final = {"cmd": "start"}
+            if case.get("seed", 0) % 4 == 0:
+                final["locale"] = LOCALES[(case.get("seed", 0) // 4) % len(
+                    LOCALES)]
+            vps = sim.run([[final]], ())
             res = vps[0].results[0] if vps[0].results else {
                 "ok": False, "exc": "did not run"}
             if had_kill:
